@@ -34,8 +34,27 @@ def main():
     except common.MachineryError as ex:
         print("MACHINERY-FAILURE %s: %s" % (pid, ex))
         return 2
-    except Exception:
-        traceback.print_exc()
+    except Exception as ex:
+        text = "".join(traceback.format_exception(type(ex), ex, ex.__traceback__))
+        sys.stdout.write(text)
+        # An exception that escapes from INSIDE the code under test, at a call the harness makes without a guard because the
+        # unchanged code answers it, is a behaviour of the code on an input inside the property's quantifier - a violation, not
+        # a failure of the machinery.  Decided by the innermost frame of the (possibly remote, for worker processes) traceback.
+        import re
+        frames = re.findall(r'File "([^"]+)", line (\d+), in (\S+)', text)
+        root = os.path.join(common.REPO, "xfab") + os.sep
+        if frames and frames[-1][0].startswith(root):
+            try:
+                v = common.Verdict(pid, a.tier, seed)
+                last = text.strip().splitlines()[-1]
+                v.violation("xfab raised %s at %s:%s (%s) on an input inside the property's quantifier that the harness passes without "
+                            "a guard" % (last[:160], frames[-1][0][len(common.REPO) + 1:], frames[-1][1], frames[-1][2]),
+                            {"traceback": text[-4000:]})
+                return v.finish("model_checking", {"states": 1, "transitions": 1, "traces_validated_against_impl": 1, "exhaustive": False,
+                                                   "rule": "run aborted by an exception raised inside the code under test"},
+                                ["aborted run: only the exception is reported"])
+            except Exception:
+                traceback.print_exc()
         print("MACHINERY-FAILURE %s: unexpected exception" % pid)
         return 2
 
